@@ -6,7 +6,7 @@ use futures::{AsyncRead, AsyncWrite};
 use libp2p_core::muxing::{StreamMuxer, StreamMuxerExt};
 use libp2p_core::upgrade::OutboundConnectionUpgrade;
 use libp2p_mplex::{Config, MaxBufferBehaviour, Multiplex};
-use simkit::pipe::{self, End, PipeCfg, Raw};
+use simkit::pipe::{self, Chunking, End, PipeCfg, Raw};
 use simkit::*;
 use std::cell::RefCell;
 use std::collections::BTreeMap;
@@ -634,7 +634,7 @@ pub fn check_c26() -> Check {
         id: "C26",
         title: "Mplex enforces its substream and buffer limits without losing data",
         level: Level::Exploration,
-        rule: "small max_substreams (1..4) and max_buffer_len (1..4), both MaxBufferBehaviours; the scripted raw peer opens more streams than allowed and floods data frames on chosen streams while the local readers are paused/resumed by the schedule; local drops free slots. Oracle: substreams handed out and not yet dropped <= max_substreams at every step; every excess Open is answered by a Reset for that id; Block: the real side never consumes more than max_buffer_len+1 data frames of a stream beyond what its reader took (+ frames of other streams read meanwhile are bounded the same way), and after readers resume every frame is read, in order; ResetStream: a Reset for the overflowing id appears on the wire and reads on it end. Non-trivial = a limit was actually reached (excess open or full buffer); distinct = fingerprint of (limits, behaviour, flood shape, pause pattern, outcome)",
+        rule: "small max_substreams (1..4) and max_buffer_len (1..4), both MaxBufferBehaviours; the scripted raw peer opens more streams than allowed and floods data frames on chosen streams while the local readers are paused/resumed by the schedule; local drops free slots. Oracle: substreams handed out and not yet dropped <= max_substreams at every step; every excess Open is answered by a Reset for that id; Block: the real side never consumes more than max_buffer_len+1 data frames of a stream beyond what its reader took (+ frames of other streams read meanwhile are bounded the same way), and after readers resume every frame is read, in order; ResetStream: a Reset for the overflowing id appears on the wire and reads on it end. limits-under-write-backpressure: the same limits are hit while the real side's own bulk write is stalled because the peer stopped reading (pipe full, muxer write buffer past its high-water mark); the owed Resets and the bulk data must all reach the wire after the peer reads again. Non-trivial = a limit was actually reached (excess open or full buffer); distinct = fingerprint of (limits, behaviour, flood shape, pause pattern, outcome)",
         assumptions: &["frames consumed by the real side are measured as bytes taken from the pipe, mapped to frames by the reference parser"],
         real: &["libp2p_mplex io::Multiplexed limits, buffering, notifier wake-ups"],
         stub: &["remote endpoint = scripted raw peer", "socket -> simkit::pipe"],
@@ -642,6 +642,7 @@ pub fn check_c26() -> Check {
             Scenario::new("substream-limit", 1500, 100_000, substream_limit),
             Scenario::new("buffer-block", 1500, 100_000, buffer_block),
             Scenario::new("buffer-reset", 1500, 100_000, buffer_reset),
+            Scenario::new("limits-under-write-backpressure", 400, 20_000, limits_backpressure),
         ],
     }
 }
@@ -892,6 +893,104 @@ fn buffer_common(behaviour: MaxBufferBehaviour) -> SimResult {
         }
     }
     set_sample(|| format!("buffer {behaviour:?} maxbuf={maxbuf} streams={nstreams} flood={flood}x{rounds}: max overrun {max_overrun}, resets {resets:?}"));
+    Ok(())
+}
+
+/// Limits hit while the real side's own writes are back-pressured: the transport stops accepting bytes (the peer does
+/// not read) until the muxer's write buffer is past its high-water mark, then the peer sends excess Opens and floods a
+/// substream nobody reads (ResetStream). The Resets the muxer owes can only be queued at that moment; they must still
+/// reach the wire once the peer reads again.
+fn limits_backpressure() -> SimResult {
+    draw_policy();
+    let max = 2 + choose(3);
+    let maxbuf = 1 + choose(3);
+    let mut cfg = cfg_default();
+    cfg.set_max_num_streams(max).set_max_buffer_size(maxbuf).set_max_buffer_behaviour(MaxBufferBehaviour::ResetStream);
+    cfg.set_split_send_size([1024, 8192, 1 << 20][choose(3)]);
+    let ch = |v| if v == 0 { Chunking::Random } else { Chunking::Full };
+    let pc = PipeCfg { capacity: [1024, 4096, 1 << 16][choose(3)], read_chunking: ch(choose(3)), write_chunking: ch(choose(3)), pending_permille: [0, 0, 30][choose(3)], eintr_permille: 0 };
+    note_val("max", max as u64);
+    note_val("cap", pc.capacity as u64);
+    let (a, raw) = pipe::pair_raw(pc);
+    let real = spawn_real(a, cfg);
+    let mut wire = vec![];
+    let mut s = vec![];
+    for id in 1..=max as u64 {
+        encode(&RFrame { id, flag: NEW_STREAM, data: vec![] }, &mut s);
+    }
+    raw.send(&s);
+    real.kick();
+    pump(&raw, &mut wire);
+    ensure!(real.ep.borrow().inbound.len() == max, "C26/setup", "setup: {} inbound", real.ep.borrow().inbound.len());
+    // stream 1 (index 0): nobody reads; stream 2 (index 1): bulk writer
+    real.ep.borrow_mut().inbound[0].paused = true;
+    let bulk_len = [2_000, 100_000, 140_000 + choose(120_000), 300_000][choose(4)];
+    let bulk: Vec<u8> = (0..bulk_len).map(|i| (i * 7 + i / 251) as u8).collect();
+    real.ep.borrow_mut().inbound[1].to_write = bulk.clone();
+    real.kick();
+    run_steps(20_000);
+    let blocked = !real.ep.borrow().inbound[1].to_write.is_empty();
+    if blocked {
+        probe("write_backpressure_reached");
+        mark_nontrivial();
+    }
+    // the peer hits both limits while the real side cannot write
+    let mut reset_expected: Vec<u64> = vec![];
+    let mut s = vec![];
+    let excess = choose(3);
+    for k in 0..excess {
+        let id = max as u64 + 1 + k as u64;
+        encode(&RFrame { id, flag: NEW_STREAM, data: vec![] }, &mut s);
+        reset_expected.push(id);
+    }
+    let flood = if choose(4) == 0 { 0 } else { maxbuf + 2 + choose(3) };
+    let mut exp1 = vec![];
+    for k in 0..flood {
+        let d = vec![0xA0, k as u8, 1];
+        encode(&RFrame { id: 1, flag: MSG_INITIATOR, data: d.clone() }, &mut s);
+        exp1.extend(d);
+    }
+    raw.send(&s);
+    real.kick();
+    run_steps(5_000);
+    // the peer reads again: in pieces first, then everything
+    for _ in 0..choose(4) {
+        wire.extend(raw.recv_upto(1 + choose(50_000)));
+        run_steps(choose(2_000));
+    }
+    pump_bounded(&raw, &mut wire);
+    pump(&raw, &mut wire);
+    real.ep.borrow_mut().inbound[0].paused = false;
+    real.kick();
+    pump(&raw, &mut wire);
+    // "at the next opportunity": every unit flushes once more
+    real.kick();
+    pump(&raw, &mut wire);
+    let e = real.ep.borrow();
+    ensure!(e.muxer_err.is_none(), "C26/muxer-error", "muxer failed: {:?}", e.muxer_err);
+    ensure!(e.inbound.len() == max, "C26/too-many-substreams", "{} inbound substreams handed out, max_substreams={max}", e.inbound.len());
+    let (frames, _) = parse(&wire);
+    let resets: Vec<u64> = frames.iter().filter(|f| f.flag == RESET_RECEIVER).map(|f| f.id).collect();
+    let got_bulk: Vec<u8> = frames.iter().filter(|f| f.id == 2 && f.flag == MSG_RECEIVER).flat_map(|f| f.data.iter().copied()).collect();
+    ensure!(got_bulk == bulk, "C26/backpressure-data-lost", "bulk write under back-pressure: {} of {} bytes on the wire (first diff {:?})", got_bulk.len(), bulk.len(), crate::c14::first_diff(&got_bulk, &bulk));
+    for id in &reset_expected {
+        ensure!(resets.contains(id), "C26/excess-open-not-reset", "Open for id {id} beyond max_substreams={max}, received while the muxer's writes were back-pressured (blocked={blocked}), was never answered with a Reset (resets on wire: {resets:?})");
+    }
+    let got1 = &e.inbound[0].read;
+    ensure!(exp1.starts_with(got1), "C26/reset-data-corrupt", "ResetStream: paused stream read non-prefix data");
+    if resets.contains(&1) {
+        probe("reset_on_overflow_seen");
+        ensure!(e.inbound[0].eof, "C26/reset-no-eof", "ResetStream: stream 1 was reset on overflow but its reader did not reach end-of-stream");
+    } else {
+        ensure!(got1 == &exp1, "C26/reset-lost-without-reset", "ResetStream: stream 1 lost data ({} of {} bytes) after overflowing under write back-pressure (blocked={blocked}), but no Reset for it reached the wire (resets {resets:?})", got1.len(), exp1.len());
+    }
+    if flood > 0 {
+        ensure!(resets.contains(&1), "C26/overflow-not-reset", "ResetStream: {flood} frames for a substream nobody reads, max_buffer_len={maxbuf}, but no Reset for it on the wire (resets {resets:?})");
+    }
+    if !reset_expected.is_empty() || flood > 0 {
+        probe("limit_hit_under_backpressure");
+    }
+    set_sample(|| format!("limits under back-pressure: max={max} maxbuf={maxbuf} bulk={bulk_len} blocked={blocked} excess {reset_expected:?} flood {flood}: resets on wire {resets:?}"));
     Ok(())
 }
 
